@@ -160,7 +160,9 @@ def run_tlc(module, cfg, workdir, env=None, workers=1, timeout=1800, extra=(), x
     e.pop("JAVA_TOOL_OPTIONS", None)
     if env:
         e.update(env)
-    cmd = ["java", "-XX:+UseParallelGC", "-Xss128m", f"-Xmx{xmx}", f"-Djava.io.tmpdir={os.path.join(BUILD, 'tmp')}", "-cp", TLA_CP,
+    tmpd = meta + "_tmp"
+    os.makedirs(tmpd, exist_ok=True)
+    cmd = ["java", "-XX:+UseSerialGC" if workers == 1 else "-XX:+UseParallelGC", "-XX:CICompilerCount=2", "-Xss128m", f"-Xmx{xmx}", f"-Djava.io.tmpdir={tmpd}", "-cp", TLA_CP,
            "tlc2.TLC", "-workers", str(workers), "-metadir", meta, "-config", cfg]
     if simulate:
         cmd += ["-simulate", simulate]
@@ -173,6 +175,7 @@ def run_tlc(module, cfg, workdir, env=None, workers=1, timeout=1800, extra=(), x
         out += "\nTIMEOUT"
         rc = 124
     shutil.rmtree(meta, ignore_errors=True)
+    shutil.rmtree(tmpd, ignore_errors=True)
     res = {"rc": rc, "out": out, "states": 0, "distinct": 0, "depth": 0}
     m = re.search(r"(\d+) states generated, (\d+) distinct states found", out)
     if m:
